@@ -125,7 +125,7 @@ var checks = map[string]*Check{
 		LevelText:   "Every ordered pair and triple of polluting scripts and probe scripts is executed on the real interpreter (directly and through Spec.Walk, with shared compiled programs and shared caller objects): the probe must observe nothing, the caller's bindings and props must be unchanged.",
 		LevelNote:   "Trusted: the script vocabulary as a stand-in for 'whatever a script does'; goja itself.",
 		Assumptions: commonAssumptions},
-	"C12": {ID: "C12", Parts: []Part{{Harness: "corec", Func: "C12", Race: true}, {Harness: "mcrew", Func: "C12mcrew", Race: true}}, Category: "model_checking", QuickDeadline: 240, ThoroughDeadline: 1500, GoMaxProcs: 1,
+	"C12": {ID: "C12", Parts: []Part{{Harness: "corec", Func: "C12", Race: true}, {Harness: "mcrew", Func: "C12mcrew", Race: true}, {Harness: "sio", Func: "C12sio", Race: true}}, Category: "model_checking", QuickDeadline: 240, ThoroughDeadline: 1500, GoMaxProcs: 1,
 		Engine: "E2", DesignRef: "6/C12",
 		Technique:   "stateless schedule exploration of concurrent walks over one compiled spec (yield points inside native and ECMAScript actions/guards, shimmed atomics of UpdatableSpec) with per-walk solo-equivalence oracle, plus a ThreadSanitizer pass on the explored schedules",
 		LevelText:   "Every interleaving (within the deviation bound) of 2-3 concurrent walks of distinct machines over one compiled specification, and of walks with concurrent SetSpec calls on an UpdatableSpec, is executed on the real code; each walk must equal its solo result under exactly one version (never a version older than a completed SetSpec), the spec's deep snapshot must not change, and ThreadSanitizer must stay silent. On the mcrew host, client threads issuing process, add and get-spec requests against a Service that has not handed the specification out yet are explored the same way: every caller gets a compiled specification and the result of some sequential order.",
